@@ -7,7 +7,7 @@ CONSTANTS
   MaxStops = 1
   MaxResets = 1
   MaxRestarts = 1
-  JoinSubscriber = FALSE
+  JoinSubscriber = TRUE
   Mutant = "AdvanceOnFail"
   LateAccepts = FALSE
   RecordHist = FALSE
